@@ -61,7 +61,7 @@ CLAIMED = {
  "C04": dict(
    level="model_checking", design="§3 C04, §2.2",
    technique="stateless model checking of the real engine: exhaustive interleaving exploration (controlled scheduler, deviation bound, happens-before caching, post-state prediction) with a porcupine strict-serializability oracle over transaction-level operations",
-   text="6 scenarios of 2-3 concurrent transactions (read-modify-write with commit or rollback; read-only with repeated reads and a scan) are explored over all interleavings up to 2 deviations for 2 threads and 1 for 3 threads (thorough: +1). Each transaction is one operation spanning begin..commit with its observed reads and its write set; the history, closed by a final read-only transaction, must be strictly serializable; own writes must be visible inside the transaction; read-only transactions must be repeatable and their scan must equal their reads. Sequentially, every transaction body of <=3 (4) operations over 2 keys on 3 pre-states must read and scan its own view (committed state overlaid with its buffered operations) before it ends. The scenarios also run free (no scheduler) in a -race build, 8 / 100 iterations each: a race report outside Close, a panic or a hang is a violation.",
+   text="7 scenarios of 2-3 concurrent transactions (read-modify-write with commit or rollback; read-only with repeated reads and a scan; one scenario starts from the state 'a read-write transaction is open and has written' with two read-only clients arriving) are explored over all interleavings up to 2 deviations for 2 threads and 1 for 3 threads (thorough: +1). Each transaction is one operation spanning begin..commit with its observed reads and its write set; the history, closed by a final read-only transaction, must be strictly serializable; own writes must be visible inside the transaction; read-only transactions must be repeatable and their scan must equal their reads. Sequentially, every transaction body of <=3 (4) operations over 2 keys on 3 pre-states must read and scan its own view (committed state overlaid with its buffered operations) before it ends. The scenarios also run free (no scheduler) in a -race build, 8 / 100 iterations each: a race report outside Close, a panic or a hang is a violation.",
    note="Non-transactional writes are excluded as in the statement. SC interleavings of visible operations."),
  "C17": dict(
    level="model_checking", design="§3 C17, §2.2",
@@ -81,7 +81,7 @@ CLAIMED = {
  "C19": dict(
    level="model_checking", design="§3 C19",
    technique="explicit-state search over request sequences against the real gRPC service handlers (in-memory streams) on a real engine, states de-duplicated by implementation state, differential oracle against the embedded API and a map model",
-   text="All sequences up to depth 4 (5 thorough) over 20 (23) requests - puts incl. empty value and boundary sizes, deletes, batches (repeated keys, 1000 ops), transactions by handle (begin rw/ro, put, delete, commit, rollback, finished and unknown handles) and 8 kinds of requests outside the documented limits that must be rejected - are sent to the real KevoServiceServer; after every sequence Get/TxGet of 7 keys, all 32 combinations of scan options for Scan/TxScan, limit, GetNodeInfo, finished handles and the embedded reads on the same engine are compared with the model (prefix/suffix override start/end as documented); rejected requests must change nothing, including the open transaction.",
+   text="All sequences up to depth 4 (5 thorough) over 23 (26) requests - incl. a second client's read-only handle open next to the first, a node-info differential over 360 provider answers - puts incl. empty value and boundary sizes, deletes, batches (repeated keys, 1000 ops), transactions by handle (begin rw/ro, put, delete, commit, rollback, finished and unknown handles) and 8 kinds of requests outside the documented limits that must be rejected - are sent to the real KevoServiceServer; after every sequence Get/TxGet of 7 keys, all 32 combinations of scan options for Scan/TxScan, limit, GetNodeInfo, finished handles and the embedded reads on the same engine are compared with the model (prefix/suffix override start/end as documented); rejected requests must change nothing, including the open transaction.",
    note="Handlers are called directly (marshalling not exercised; empty bytes passed as nil like protobuf delivers them). Compact/GetStats are administrative and excluded."),
  "C16": dict(
    level="model_checking", design="§3 C16",
@@ -91,7 +91,7 @@ CLAIMED = {
  "C13": dict(
    level="model_checking", design="§3 C13, §2.5",
    technique="exhaustive enumeration of fault schedules (drop, duplicate, late duplicate, reorder by one or two messages, connection break on the first 3 messages of the first 4 connections, <=1 / <=2 faults) over deterministic fair executions of the real Primary and Replica in discrete-event virtual time, with a recording applier as oracle",
-   text="The real replication.Primary (on a real engine, observer + poll + heartbeat loops) and the real replication.Replica (state machine, batch applier, engine applier on a second read-only engine) run over an in-memory link that replaces gRPC (bounded window, message copying, connection semantics). 35 scenarios (a replica run and restarted by the real replication.Manager after a transaction, large values across the batch size, flushes in a row, a rejected oversized transaction between writes, single writes incl. delete, a 3-entry and a 130-entry transaction, flushes with log rotation, a lone write, writes arriving alone after the replica caught up; replica joins before/during/after the writes or is restarted; default and uncompressed configuration) x every fault vector within the bound: the sequence of entries handed to the replica's engine must equal the primary's log in order, none skipped, none applied twice; the reported applied sequence never decreases nor exceeds the highest applied entry. Part B: explicit-state search over every delivery sequence (depth 5 / 7) of the 15 whole-sequence batches of a 5-sequence history to the real WALBatchApplier and to the real Replica message handler, same oracle after every delivery plus: the in-order batch is applied completely, any other batch applies nothing, a forward gap is answered by a retransmission request.",
+   text="The real replication.Primary (on a real engine, observer + poll + heartbeat loops) and the real replication.Replica (state machine, batch applier, engine applier on a second read-only engine) run over an in-memory link that replaces gRPC (bounded window, message copying, connection semantics). 43 scenarios (a primary whose log runs without sync / with batched sync or whose memtable is full after every write, a replica run and restarted by the real replication.Manager after a transaction, large values across the batch size, flushes in a row, a rejected oversized transaction between writes, single writes incl. delete, a 3-entry and a 130-entry transaction, flushes with log rotation, a lone write, writes arriving alone after the replica caught up; replica joins before/during/after the writes or is restarted; default and uncompressed configuration) x every fault vector within the bound: the sequence of entries handed to the replica's engine must equal the primary's log in order, none skipped, none applied twice; the reported applied sequence never decreases nor exceeds the highest applied entry. Part B: explicit-state search over every delivery sequence (depth 5 / 7) of the 15 whole-sequence batches of a 5-sequence history to the real WALBatchApplier and to the real Replica message handler, same oracle after every delivery plus: the in-order batch is applied completely, any other batch applies nothing, a forward gap is answered by a retransmission request; a further target delivers every batch also with the replica's local applier refusing its k-th entry (no entry applied before the ones ahead of it, the reported sequence covers applied entries only).",
    note="Timer races are not explored in these runs (due-time order). One open known finding (restart re-applies the history)."),
  "C14": dict(
    level="model_checking", design="§3 C14, §2.5",
@@ -101,7 +101,7 @@ CLAIMED = {
  "C15": dict(
    level="model_checking", design="§3 C15",
    technique="stateless interleaving exploration (deviation bound 1 quick / 2 thorough, happens-before caching) of client calls on a primary with misbehaving replica sessions, deadlock detection by the scheduler; plus a discrete-event run for topology changes",
-   text="The real Primary on a real engine with replica sessions over an in-memory stream of bounded window: a replica that never reads (window 1) while clients put/get/commit, and a healthy acknowledging replica whose poll loop runs (ticker as environment event) while clients write. In every explored schedule every client call must return nil; a client thread waiting - directly or through a lock chain - on a stream send or on a lock held by a replication thread is reported as the scheduler's deadlock witness with the blocked call sites. A discrete-event run with one stalled and one healthy replica checks that 45 writes finish, the stalled session leaves GetReplicaInfo after the heartbeat timeout and the healthy one received everything.",
+   text="The real Primary on a real engine with replica sessions over an in-memory stream of bounded window: a replica that never reads (window 1) while clients put/get/commit, an acknowledgement or a retransmission request for the stuck session followed by a client put, flush and get, a connection cut abruptly (thorough), and a healthy acknowledging replica whose poll loop runs (ticker as environment event) while clients write. In every explored schedule every client call must return nil; a client thread waiting - directly or through a lock chain - on a stream send or on a lock held by a replication thread is reported as the scheduler's deadlock witness with the blocked call sites. A discrete-event run with one stalled and one healthy replica checks that 45 writes finish, the stalled session leaves GetReplicaInfo after the heartbeat timeout and the healthy one received everything.",
    note="'Normal time' is decided as absence of a blocking dependency on the replica, not as a latency figure. gRPC flow control = bounded in-memory window."),
 }
 
